@@ -365,4 +365,6 @@ add("C30", "log1p spelled out in the JAX moment matching", "nifty/re/num/stats_d
 add("C30", "length-one arrays no longer fill", "nifty/cl/utilities.py", "    if x.shape in [(), (1, )]:", "    if x.ndim == 0:", "R30.6")
 add("C30", "uniform inverse clamps its argument", "nifty/cl/library/special_distributions.py", "        res = norm._ppf((field.val - self._loc) / self._scale)", "        res = norm._ppf(np.clip((field.val - self._loc) / self._scale, 1e-10, 1 - 1e-10))", "R30.7")
 add("C30", "shift inside the log-space table", "nifty/re/num/stats_distributions.py", "        s2i = lambda x: invgamma.ppf(norm._cdf(x), a=a, scale=scale)\n", "        s2i = lambda x: invgamma.ppf(norm._cdf(x), a=a, loc=loc, scale=scale)\n", "R30.8")
+add("C28", "Matern fluctuation integrates the zero mode", "nifty/cl/library/correlated_fields.py", "        self._fluc = (vol1*op).power(2).integrate().sqrt().scale(totvol**-0.5)\n        op = vol0 + vol1*op\n", "        op = vol0 + vol1*op\n        self._fluc = op.power(2).integrate().sqrt().scale(totvol**-0.5)\n", "R28.10")
+add("C28", "spherical mode lengths transformed for the Matern model only", "nifty/re/correlated_field.py", "            mode_lengths=m_length,\n            relative_log_mode_lengths=um,\n            log_volume=log_vol,\n        )\n        grid = HEALPixGrid(", "            mode_lengths=np.sqrt(m_length * (m_length + 1.0)),\n            relative_log_mode_lengths=um,\n            log_volume=log_vol,\n        )\n        grid = HEALPixGrid(", "R28.9")
 VARIANTS = V
